@@ -353,7 +353,10 @@ class Model(object):
             if self._ode_definition_map and variable is self.get_free_variable():
                 return 0
             raise ValueError('No definition set for ' + self.get_display_name(variable))
-        expr = expr.rhs
+        return self._evaluate(expr.rhs, evaluated)
+
+    def _evaluate(self, expr, evaluated=None):
+        """Evaluates an expression at the initial state, see :meth:`get_value()`."""
         deps = expr.atoms(Variable)
         if deps:
             if evaluated is None:
@@ -361,6 +364,13 @@ class Model(object):
                 if self._ode_definition_map:
                     time = self.get_free_variable()
                     evaluated[time] = 0
+            # A derivative takes the value of the right-hand side of its ODE
+            for deriv in expr.atoms(sympy.Derivative):
+                if deriv not in evaluated:
+                    ode = self._ode_definition_map.get(deriv.args[0])
+                    if ode is None or ode.lhs != deriv:
+                        raise ValueError('No definition set for ' + str(deriv))
+                    evaluated[deriv] = self._evaluate(ode.rhs, evaluated)
             for dep in deps:
                 if dep not in evaluated:
                     evaluated[dep] = self._get_value(dep, evaluated)
